@@ -394,6 +394,10 @@ func (loader *Loader) resolveComponent(doc *T, ref string, path *url.URL, resolv
 			// Special case due to multijson
 			case *SchemaRef:
 				if pathPart == "additionalProperties" {
+					if c.Value == nil {
+						// a reference that is not resolved (yet) has nothing to descend into
+						return nil, failedToResolveRefFragmentPart(ref, pathPart)
+					}
 					if ap := c.Value.AdditionalProperties.Has; ap != nil {
 						cursor = *ap
 					} else {
@@ -417,7 +421,7 @@ func (loader *Loader) resolveComponent(doc *T, ref string, path *url.URL, resolv
 				}
 			}
 
-			if cursor == nil {
+			if isNilCursor(cursor) {
 				return nil, failedToResolveRefFragmentPart(ref, pathPart)
 			}
 		}
@@ -515,6 +519,18 @@ func readableType(x any) string {
 	default:
 		panic(fmt.Sprintf("unreachable %T", x))
 	}
+}
+
+// isNilCursor reports whether a drill-down step found nothing: a nil interface, or a nil pointer
+// held in one (an absent optional object of the document model).
+func isNilCursor(cursor any) bool {
+	if cursor == nil {
+		return true
+	}
+	if v := reflect.ValueOf(cursor); v.Kind() == reflect.Ptr {
+		return v.IsNil()
+	}
+	return false
 }
 
 func drillIntoField(cursor any, fieldName string) (any, error) {
